@@ -1782,8 +1782,7 @@ class PseudoNetCDFFile(PseudoNetCDFSelfReg, object):
                     try:
                         # Combine calendar specific month and day with new year
                         out = np.array([
-                            datetime(refyear + yearinc, cday.month,
-                                     cday.day, tzinfo=utc)
+                            cday.replace(year=refyear + yearinc)
                             for yearinc, cday in zip(yearincrs, cdays)])
                     except Exception:
                         warn(('Years calculated from %d day year, but ' +
